@@ -61,6 +61,13 @@ def scopes(chk):
               'ListNames': [], 'MathKinds': ['$', '\\['], 'MEnvNames': ['equation'], 'Labels': [''], 'MaxSib': 3, 'MaxArgs': 0,
               'ComPool': ['}', '$', '\\end{equation}', '\\]', 'c', ')', '(', '.', '|', '\\}']})
     sc.append(('sizing', p))
+    # a comment between a fixed-signature command and its brace group on the next line (the comment is NOT the argument)
+    p = dict(common)
+    p.update({'Budget': 4, 'TextPool': ['\n', '\n '], 'MathTextPool': ['x'], 'CmdNames': [], 'EnvNames': ['e'], 'ListNames': [], 'MathKinds': ['$'], 'MEnvNames': [],
+              'Labels': [''], 'MaxSib': 4, 'MaxArgs': 1, 'Leaves': ['Cmd(%s, <<>>)' % D.S('textbf'), 'Cmd(%s, <<>>)' % D.S('section'),
+                                                                     'Cmd(%s, << Cmd(%s, <<>>) >>)' % (D.S('def'), D.S('nm'))],
+              'ComPool': ['c', '}', '{', '$', '\\end{e}']})
+    sc.append(('signature', p))
     return sc
 
 
